@@ -139,6 +139,12 @@ func (l *asLogger) rec(m string, a []any) {
 	case "supervision: actor failed":
 		if c := e.byPath(fmt.Sprint(attr(a, "path"))); c != nil {
 			e.events = append(e.events, fmt.Sprintf("failed:%d", c.cid))
+			// C08: a failure while the actor is already stopping must not reach the supervisor
+			if c.ctx != nil && e.viol == "" {
+				if st := c.ctx.VerifState(); st.State != 0 && !st.Zombie {
+					e.viol = fmt.Sprintf("SUPERVISION-WHILE-STOPPING: context %d (%s) raised a supervision request while it was already %s: its parent's strategy is consulted and the directive applied for an actor that is terminating anyway", c.cid, c.path, map[int32]string{1: "killing", 2: "killed"}[st.State])
+				}
+			}
 		}
 	case "restart failed; actor is now in zombie state":
 		if c := e.byPath(fmt.Sprint(attr(a, "path"))); c != nil {
